@@ -130,6 +130,16 @@ def r_edit(prog, tier):
                  and isinstance(n.ast.iter, ast.Call) and unparse(n.ast.iter.func) == 'sorted'
                  and any(k.arg == 'key' and unparse(k.value) == 'int' for k in n.ast.iter.keywords)]
         if len(loops) != 1:
+            # positive evidence for insert_terminals: the requests of the sentence are walked in the order of the table
+            # (file order), although every insertion shifts the positions behind it
+            raw = [n for n in cfg.eval_nodes() if n.kind == 'iter' and isinstance(n.ast.target, ast.Name) and not n.loops
+                   and unparse(n.ast.iter).startswith('%s.terminals[' % nm) and 'sorted' not in unparse(n.ast.iter)]
+            if nm == 'insert_terminals' and len(raw) == 1:
+                obs.append(Ob('R-EDIT/RANGE', f.fq, 'the requested positions of a sentence are processed in ascending order',
+                              False, '`for %s in %s` follows the order of the terminal file: a lower position listed after a '
+                              'higher one shifts the token inserted earlier' % (raw[0].ast.target.id, unparse(raw[0].ast.iter)[:60]),
+                              construct='ins-order', line=raw[0].lineno))
+                continue
             raise Unrecognised('%s: loop over the requested indices not found' % f.fq)
         X = loops[0].ast.target.id
         # effect sites: every statement in the loop that writes a node field or attaches a node
